@@ -8,8 +8,11 @@ from vlib import common
 
 GO = dict(module="extras", pkg="trafficlogger", pkgname="trafficlogger",
           files={"zz_verif_c15_test.go": "c15/c15_test.go", "zz_verif_c15_e2e_test.go": "c15/c15_e2e_test.go"}, run="TestVerifC15")
+# the logged relay loop itself, on scripted Reads: harness injected into core/server (copyBufferLog / copyTwoWayEx are unexported)
+GO_COPY = dict(module="core", pkg="server", pkgname="server",
+               files={"zz_verif_c15copy_test.go": "c15/c15_copy_test.go"}, run="TestVerifC15Copy")
 PARAMS_NAME = "ParamsC15"
-HEADER = ("From Hy Require Import lib.Harness lib.Lin model.C15_Stats model.C15_Sites corr.C15_Corr.\n"
+HEADER = ("From Hy Require Import lib.Harness lib.Lin model.C15_Stats model.C15_Sites model.C15_Copy corr.C15_Corr.\n"
           "From Coq Require Import ZArith String.\nLocal Open Scope string_scope.\nLocal Open Scope N_scope.\nNotation length := List.length (only parsing).\n")
 RULE = ("seeded generator. (a) sequential call sequences (15-45 calls) on the real trafficStatsServerImpl: LogTraffic with boundary byte counts "
         "(0, 1, 2^32, 2^63, 2^64-1), LogOnlineState incl. unpaired offline, ServeHTTP through a ResponseRecorder: GET /traffic with every "
@@ -43,6 +46,21 @@ RULE = ("seeded generator. (a) sequential call sequences (15-45 calls) on the re
         "or kicked through the refused report of another, working flow - with and without another live connection of the user; the dials are "
         "released (they fail) while the connection is alive, after it is long gone, or never within the case: GET /online must drop the "
         "connection within the same bound (15 s) as after every other disconnect, one offline notification, the other connections unaffected. "
+        "END OF STREAM (6 directed scripts per run + 25% of the random TCP transfers): the sender closes its end together with the bytes, so "
+        "the kicked user's refused report is for the LAST chunk of a copy direction - client writes and closes the QUIC stream at once (data and FIN "
+        "in one Read), or an in-memory remote handed out by the gated Outbound whose Read returns the tail together with io.EOF (deterministic) - "
+        "on a stream that carried nothing before and on one that carried accepted bytes both ways. "
+        "REQUEST HOOK x TRAFFIC LOGGER (6 directed scripts per run + 40% of the random scripts): the server runs with a RequestHook (takes k bytes off "
+        "the stream, rewrites the address, returns them as putback; k = 0 and UDP: rewrite only) next to the stats server; the kicked user's next "
+        "transfer is a hooked request whose putback is part / all / none of it, fresh or established, beside unhooked requests. "
+        "REPORT SITES BY OBSERVATION: the tap records for EVERY LogTraffic call the function of core/server it was made from (call stack) and its "
+        "answer; verdict on the implementation: whenever the logger answers false the connection the report came from is closed by the server within 5 s "
+        "and no later report of it is accepted; the recorded callers go to the model (WR observations, site_of_caller): a caller the model does not know "
+        "makes the correspondence fail - report site not in the model. "
+        "(e) the relay loop itself (stage 'copy', harness injected into core/server): the real copyBufferLog, alone and as either direction of "
+        "copyTwoWayEx, on ~216 scripted streams of Read results (n bytes with nil / io.EOF / a failure, report accepted or refused, Write ok or failing): "
+        "a refusal at positions 0-3 x {nil, EOF, failure} x 3 entry points directed, the rest random; result class and the exact log/Write call sequence "
+        "compared with model/C15_Copy.v copy_loop, verdict: a refused report => errDisconnect, nothing written or read after it. "
         "Non-trivial = a sequence with a refused report and >= 2 snapshots, a history with really overlapping calls, a stress run with clears, "
         "an e2e run with a refusal or with pending dials.")
 ASSUMPTIONS = [
@@ -53,11 +71,16 @@ ASSUMPTIONS = [
     "the goroutines of HIJACKED streams (handleTCPRequest, one per proxied TCP request) and the UDP session manager are NOT among them: handleClient's continuation - the offline notification - does not depend "
     "on them (model/C15_Pending.v, C15_offline_does_not_wait_for_request_goroutines; observed end to end with outbound dials that never return)",
     "after quic.Conn.CloseWithError no stream or datagram of that connection carries bytes any more and http3's ServeQUICConn returns (quic-go; modelled as: a closed connection makes no report, its handler may return); observed end to end on every refused step",
+    "RequestHook putback bytes are written to the target by handleTCPRequest WITHOUT a LogTraffic call (the code as it is: they appear in the stream stats only); "
+    "the end-to-end verdict expects exactly the relay's bytes to be reported for a hooked request, and any LogTraffic call from a function other than "
+    "copyTwoWayEx / udpIOImpl.ReceiveMessage / udpIOImpl.SendMessage fails the correspondence (report site not in the model)",
     "TCP sites: the refusing copy direction's errDisconnect is the first value to reach copyTwoWayEx's channel (hypothesis `other_first = false` of the site theorems; the other case is C06's open finding veto-swallowed-other-direction-returned-first)",
     "fewer than 2^63 online notifications per user (Go int wrap), stated as a hypothesis of the online theorems",
 ]
 TRUSTED = ["modelled rather than verified: extras/trafficlogger/http.go (hand transcription in coq/model/C15_Stats.v; one model operation per mutex critical section)",
-           "modelled rather than verified: the code after the four LogTraffic call sites and the online/offline notifications of core/server (server.go handleClient, ServeHTTP, handleTCPRequest, udpIOImpl.ReceiveMessage/SendMessage, copy.go) in coq/model/C15_Sites.v, tied by the end-to-end runs",
+           "modelled rather than verified: the code after the four LogTraffic call sites and the online/offline notifications of core/server (server.go handleClient, ServeHTTP, handleTCPRequest, udpIOImpl.ReceiveMessage/SendMessage, copy.go) in coq/model/C15_Sites.v, tied by the end-to-end runs; "
+           "the set of report sites is enumerated from observation (call stacks at the logger boundary), not from the source",
+           "modelled rather than verified: copy.go copyBufferLog in coq/model/C15_Copy.v (loop over scripted Reads), tied by a differential run of the real function inside core/server on every run",
            "linearizability of the real object is sampled (recorded histories checked by lib/Lin.v, whose soundness is proved), not proved"]
 PER_SHARD = 45
 EXTRA_TARGETS = ["corr/C15_Corr.vo"]
@@ -316,6 +339,9 @@ class E2EScript:
         self.pending = set()
         self.raws = {}        # raw HTTP/3 connections: slot -> id
         self.hung = {}        # slot -> kinds of its pending outbound dials
+        # configuration dimensions of random scripts: in-memory remotes (gated outbound) / a RequestHook next to the
+        # TrafficLogger; directed scripts pass mem= / hook= explicitly
+        self.use_mem = self.use_hook = False
 
     def connect(self, i):
         self.steps.append({"a": "connect", "slot": self.nslot, "id": i})
@@ -397,28 +423,52 @@ class E2EScript:
             self.steps.append({"a": "kick", "id": i})   # a second kick collapses with the first
         self.pending.add(i)
 
-    def new_flow(self, s, kind):
-        self.flows[self.nflow] = [s, kind, False]
+    def new_flow(self, s, kind, mem=False, hook=None):
+        """mem (tcp): the remote end is an in-memory conn of the harness (gated outbound) whose last bytes come together
+        with io.EOF; hook: None = the request is not hooked, k >= 0 = it goes through the server's RequestHook, which takes
+        k bytes off the stream and hands them back as putback (udp: address rewrite only, k = 0)"""
+        if kind == "udp":
+            mem, hook = False, (None if hook is None else 0)
+        self.flows[self.nflow] = [s, kind, False, {"mem": bool(mem), "hook": hook, "fresh": True}]
         self.nflow += 1
         return self.nflow - 1
 
-    def move(self, f, d, n=None):
-        """n bytes on flow f in direction d; the report it causes is refused iff a kick of the user is pending"""
-        s, kind, has_up = self.flows[f]
+    def move(self, f, d, n=None, fin=False):
+        """n bytes on flow f in direction d; the report it causes is refused iff a kick of the user is pending.
+        fin (tcp): the sender closes its end together with the bytes - they are the LAST chunk of that direction of the
+        stream (the Read that yields them may yield io.EOF with them); the flow is over afterwards.
+        On a fresh hooked flow with putback k the first transfer goes up and has at least k bytes: k of them are written to
+        the target by handleTCPRequest itself, the relay - the report site - sees n - k (none: no report, a pending kick stays)."""
+        s, kind, has_up, opt = self.flows[f]
         assert not (kind == "udp" and d == "down" and not has_up)
+        pb = opt["hook"] if (kind == "tcp" and opt["hook"] and opt["fresh"]) else 0
+        if pb:
+            d = "up"
         if n is None:
-            n = self.rng.choice(TCP_N if kind == "tcp" else UDP_N)
-        self.steps.append({"a": kind, "slot": s, "flow": f, "dir": d, "n": n})
+            n = self.rng.choice([x for x in (TCP_N if kind == "tcp" else UDP_N) if x >= pb] + ([pb] if pb else []))
+        n = max(n, pb)
+        fin = bool(fin) and kind == "tcp"
+        self.steps.append({"a": kind, "slot": s, "flow": f, "dir": d, "n": n, "fin": fin, "mem": opt["mem"],
+                           "hooked": opt["hook"] is not None, "putback": opt["hook"] or 0})
+        opt["fresh"] = False
         i = self.slots[s]
-        if i in self.pending:
+        if i in self.pending and n - pb > 0:
             self.pending.discard(i)
             self.drop(s)      # the refused connection is gone
             return False
         if d == "up":
             self.flows[f][2] = True
+        if fin:
+            del self.flows[f]
         return True
 
-    def site(self, s, kind, d, established=None):
+    def fresh_opts(self):
+        """configuration of a fresh flow in a random script"""
+        mem = self.use_mem and self.rng.random() < 0.5
+        hook = self.rng.choice([0, 0, 1, 5, 100]) if (self.use_hook and self.rng.random() < 0.6) else None
+        return mem, hook
+
+    def site(self, s, kind, d, established=None, fin=False, mem=None, hook="rand"):
         """make the next report of slot s come from site (kind, d), on an established flow or a fresh one.
         Returns False when that is not possible in the current state."""
         if kind == "udp" and "udp" in self.hung.get(s, []):
@@ -428,12 +478,15 @@ class E2EScript:
             established = bool(old) and self.rng.random() < 0.5
         if kind == "udp" and d == "down":
             established = True
+        if fin is None:
+            fin = kind == "tcp" and self.rng.random() < 0.25
         if established:
             if not old:
                 return False
-            self.move(self.rng.choice(old), d)
+            self.move(self.rng.choice(old), d, fin=fin)
         else:
-            self.move(self.new_flow(s, kind), d)
+            m, h = self.fresh_opts()
+            self.move(self.new_flow(s, kind, mem=m if mem is None else mem, hook=h if hook == "rand" else hook), d, fin=fin)
         return True
 
     def case(self):
@@ -513,6 +566,99 @@ def gen_e2e_hang(rng):
             sc.release(a)                                         # released after the connection is long gone
         c = sc.connect(0)                                         # the user comes back and is counted once
         sc.site(c, *rng.choice(SITES[:3]), established=False)
+        out.append(sc.case())
+    return out
+
+
+def gen_e2e_eos(rng):
+    """THE REFUSED REPORT COINCIDES WITH THE END OF THE STREAM: the kicked user's next report is for the LAST chunk of
+    one direction of a TCP relay - the sender closes its end together with the bytes, so the Read that yields them can
+    yield io.EOF with them (a QUIC receive stream when data and FIN arrive together; an outbound conn whose Read returns
+    the tail with the EOF - the in-memory remote does so by construction) - on a stream that carried nothing before
+    (first = last chunk) and on one that has carried accepted bytes in both directions (the refusal at the end of a
+    longer stream), next to another user whose own last chunks are accepted.  Positions first / middle are the
+    directed site scripts; with these every position of a stream is covered."""
+    out = []
+    small = [1, 16, 100, 1000]
+    for d, mem, established in (("up", False, False), ("up", False, True), ("up", True, True),
+                                ("down", True, False), ("down", True, True), ("down", False, True)):
+        sc = E2EScript(rng, rng.choice(["", "s3cret"]), ["alice", "bob"])
+        a = sc.connect(0)
+        b = sc.connect(1)
+        a2 = sc.connect(0) if rng.random() < 0.4 else None
+        fa = None
+        if established:
+            fa = sc.new_flow(a, "tcp", mem=mem)
+            sc.move(fa, "up", rng.choice(TCP_N))
+            if rng.random() < 0.6:
+                sc.move(fa, "down", rng.choice(TCP_N))
+        fb = sc.new_flow(b, "tcp", mem=rng.random() < 0.5)
+        sc.move(fb, rng.choice(["up", "down"]))
+        sc.kick(0, twice=rng.random() < 0.3)
+        sc.move(fb, rng.choice(["up", "down"]), rng.choice(small), fin=True)   # bob's last chunk is accepted; bob stays
+        if fa is None:
+            fa = sc.new_flow(a, "tcp", mem=mem)
+        assert sc.move(fa, d, rng.choice(small + [5000]), fin=True) is False and a not in sc.slots
+        if a2 is not None:
+            sc.site(a2, "tcp", rng.choice(["up", "down"]), established=False, fin=True, mem=rng.random() < 0.5, hook=None)
+        c = sc.connect(0)
+        sc.site(c, "tcp", rng.choice(["up", "down"]), established=False, fin=rng.random() < 0.5, mem=mem, hook=None)
+        sc.site(b, "tcp", d, established=False, fin=True, mem=mem, hook=None)  # the same shape, not kicked: accepted
+        out.append(sc.case())
+    return out
+
+
+def gen_e2e_hook(rng):
+    """REQUEST HOOK x TRAFFIC LOGGER: the server runs with a RequestHook (a sniffer: takes k bytes off the stream,
+    rewrites the address, hands the bytes back as putback; k = 0: address rewrite only) next to the stats server.  The
+    kicked user's next transfer is a hooked request whose putback is part of / all of / none of it, on a fresh request and
+    on one established before the kick; unhooked requests and another user's hooked traffic go on beside it.  Whatever
+    call to LogTraffic is answered false - wherever in core/server it was made from - must disconnect the user; the caller
+    of every recorded report is passed to the model, which knows the four sites (site_of_caller)."""
+    out = []
+    for variant in range(6):
+        sc = E2EScript(rng, rng.choice(["", "s3cret"]), ["alice", "bob"])
+        a = sc.connect(0)
+        b = sc.connect(1)
+        a2 = sc.connect(0) if rng.random() < 0.4 else None
+        k = rng.choice([1, 5, 100])
+        fb = sc.new_flow(b, "tcp", hook=rng.choice([0, k]), mem=rng.random() < 0.3)
+        sc.move(fb, "up")                                           # bob: hooked, accepted (putback moved, the rest reported)
+        fe = None
+        if variant == 3:
+            fe = sc.new_flow(a, "tcp", hook=k)                      # established before the kick, putback already consumed
+            sc.move(fe, "up")
+            if rng.random() < 0.5:
+                sc.move(fe, "down")
+        sc.kick(0, twice=rng.random() < 0.3)
+        sc.move(fb, rng.choice(["up", "down"]))
+        if variant == 0:                                             # putback is the head of the transfer
+            f = sc.new_flow(a, "tcp", hook=k, mem=rng.random() < 0.3)
+            assert sc.move(f, "up", k + rng.choice([1, 50, 3000]), fin=rng.random() < 0.3) is False
+        elif variant == 1:                                           # putback is ALL of it: the relay sees nothing, no report ...
+            f = sc.new_flow(a, "tcp", hook=k)
+            assert sc.move(f, "up", k) is True and 0 in sc.pending
+            if rng.random() < 0.5:                                   # ... the kick waits for the next byte of the relay
+                assert sc.move(f, rng.choice(["up", "down"])) is False
+            else:
+                assert sc.site(a, *rng.choice(SITES[:3]), established=False, hook=None) and a not in sc.slots
+        elif variant == 2:                                           # hooked, no putback
+            f = sc.new_flow(a, "tcp", hook=0, mem=rng.random() < 0.3)
+            assert sc.move(f, rng.choice(["up", "down"]), fin=rng.random() < 0.3) is False
+        elif variant == 3:
+            assert sc.move(fe, rng.choice(["up", "down"])) is False
+        elif variant == 4:                                           # a hooked UDP session
+            f = sc.new_flow(a, "udp", hook=0)
+            assert sc.move(f, "up") is False
+        else:                                                        # an unhooked request on a server that has a hook
+            assert sc.site(a, *rng.choice(SITES[:3]), established=False, hook=None) and a not in sc.slots
+        if a2 is not None:                                           # the kick is used up: the other connection goes on, hooked
+            f2 = sc.new_flow(a2, "tcp", hook=rng.choice([0, k]))
+            sc.move(f2, "up")
+        c = sc.connect(0)
+        f3 = sc.new_flow(c, "tcp", hook=k)
+        sc.move(f3, "up", rng.choice([k, k + 7, 1000]))
+        sc.move(fb, "down")
         out.append(sc.case())
     return out
 
@@ -602,6 +748,8 @@ def gen_e2e(rng):
     """script for a real server + real clients over loopback"""
     pool = rng.sample(["alice", "bob", "carol"], rng.randint(1, 3))
     sc = E2EScript(rng, rng.choice(["", "s3cret"]), pool)
+    sc.use_mem = rng.random() < 0.4
+    sc.use_hook = rng.random() < 0.4
     n = len(pool)
     want = None  # after a kick, drive a report of that id soon
     for _ in range(rng.randint(8, 14)):
@@ -611,8 +759,8 @@ def gen_e2e(rng):
             if cand:
                 s = rng.choice(cand)
                 kind, d = rng.choice(SITES)
-                if sc.site(s, kind, d) or sc.site(s, kind, "up"):
-                    want = None
+                if sc.site(s, kind, d, fin=None) or sc.site(s, kind, "up", fin=None):
+                    want = None if want not in sc.pending else want
                     continue
         if not sc.slots or r < 0.25:
             if rng.random() < 0.25:
@@ -632,8 +780,8 @@ def gen_e2e(rng):
             s = rng.choice(list(sc.slots))
             i = sc.slots[s]
             kind, d = rng.choice(SITES)
-            if not sc.site(s, kind, d):
-                sc.site(s, kind, "up")
+            if not sc.site(s, kind, d, fin=None):
+                sc.site(s, kind, "up", fin=None)
             if want == i and i not in sc.pending:
                 want = None
         else:
@@ -641,6 +789,39 @@ def gen_e2e(rng):
             sc.kick(i, twice=rng.random() < 0.3)
             want = i
     return sc.case()
+
+
+def report_terms(st, ob):
+    """every LogTraffic call recorded during the step, with the function of core/server it was made from (observed on
+    the call stack): the model maps the caller to one of its report sites (site_of_caller) or the check fails -
+    a report site that is not in the model"""
+    reps, sites = ob.get("reports") or [], ob.get("sites") or []
+    out = []
+    for k, (_, tx, rx, acc) in enumerate(reps):
+        fn = sites[k] if k < len(sites) else "?"
+        out.append("WR %s %d %d %d %s" % (cstr(fn), st["slot"], tx, rx, "true" if acc else "false"))
+    return out
+
+
+def modelled_callers():
+    """the callers model/C15_Sites.v knows (site_of_caller), read from the model's source"""
+    import re
+    try:
+        src = open(_os.path.join(common.VERIF, "coq", "model", "C15_Sites.v")).read()
+        body = src.split("Definition site_of_caller", 1)[1].split("\n\n", 1)[0]
+        return set(re.findall(r'"([^"]+)"', body))
+    except Exception:
+        return set()
+
+
+def unmodelled_sites(o):
+    known = modelled_callers()
+    out = set()
+    for ob in o.get("obs") or []:
+        for fn in ob.get("sites") or []:
+            if known and fn not in known:
+                out.add(fn)
+    return sorted(out)
 
 
 def e2e_term(c, o):
@@ -693,17 +874,14 @@ def e2e_term(c, o):
         elif a == "hang" and res == "ok":
             # the datagram of a hung UDP session is reported on receipt; the dials are request goroutines of the
             # connection that stay in flight (model/C15_Pending.v)
-            for (_, tx, rx, acc) in ob.get("reports") or []:
-                terms.append("WE (EReport %d UdpUp %d false) (WBool %s)" % (st["slot"], tx, "true" if acc else "false"))
+            terms += report_terms(st, ob)
             terms.append("WReq %d %d" % (st["slot"], st["n"] if st["kind"] == "tcp" else 1))
         elif a == "release" and res == "ok":
             terms.append("WRel %d" % st["slot"])
             if ob.get("alive") is not None:
                 terms.append("WAlive %d %s" % (st["slot"], "true" if ob["alive"] else "false"))
         elif a in ("tcp", "udp") and res in ("ok", "refused"):
-            for (_, tx, rx, acc) in ob.get("reports") or []:
-                site = ("Tcp" if a == "tcp" else "Udp") + ("Up" if (tx > 0 or (rx == 0 and st["dir"] == "up")) else "Down")
-                terms.append("WE (EReport %d %s %d false) (WBool %s)" % (st["slot"], site, tx if tx > 0 else rx, "true" if acc else "false"))
+            terms += report_terms(st, ob)
             if ob.get("alive") is not None:
                 terms.append("WAlive %d %s" % (st["slot"], "true" if ob["alive"] else "false"))
         for _ in (ob.get("downs") or []) if a != "pendauth" else []:
@@ -717,7 +895,8 @@ def e2e_refusal_sites(c, o):
     out = set()
     for st, ob in zip(c["steps"], o.get("obs") or []):
         if ob.get("result") == "refused":
-            out.add("%s-%s" % (st["a"], st["dir"]))
+            out.add("%s-%s" % (st["a"], st["dir"]) + ("-last-chunk%s" % ("-data+EOF-remote" if st.get("mem") else "") if st.get("fin") else "") +
+                    ("-hooked" + ("-putback" if st.get("putback") else "") if st.get("hooked") else ""))
     return sorted(out)
 
 
@@ -729,6 +908,8 @@ def gen(rng, tier):
         cases += gen_e2e_multi_auth(rng)
         cases += gen_e2e_pending(rng)
         cases += gen_e2e_hang(rng)
+        cases += gen_e2e_eos(rng)
+        cases += gen_e2e_hook(rng)
     for _ in range(10 if tier == "quick" else 60):
         cases.append(gen_e2e(rng))
     for _ in range(160 * scale):
@@ -819,7 +1000,9 @@ def klass(c, o):
         multi = any(st["a"] == "rawauth" and st["conc"] and st["reqs"].count("ok") > 1 for st in c["steps"])
         pend = any(st["a"] == "pendauth" for st in c["steps"])
         hang = sorted({st["kind"] for st in c["steps"] if st["a"] == "hang"})
-        return ("e2e:" + ("refusal@" + "+".join(sites) if sites else "no-refusal") + ("+concurrent-auths-on-one-conn" if multi else "") +
+        hook = any(st.get("hooked") for st in c["steps"])
+        unmod = unmodelled_sites(o)
+        return ("e2e:" + ("hook+logger:" if hook else "") + ("REPORT-SITE-NOT-IN-THE-MODEL(%s):" % ",".join(unmod) if unmod else "") + ("refusal@" + "+".join(sites) if sites else "no-refusal") + ("+concurrent-auths-on-one-conn" if multi else "") +
                 ("+fault-while-auth-pending" if pend else "") + ("+conn-ends-with-pending-%s-dials" % "/".join(hang) if hang else ""))
     return "stress:clears=%s,refused=%s" % ("0" if not o.get("clears") else ">0", "0" if not o.get("refused") else ">0")
 
@@ -837,7 +1020,7 @@ def nontrivial(c, o):
 def fingerprint(c, o):
     """stable name of the violated clause (one VIOLATION line per clause and case kind)"""
     why = o.get("why") or ""
-    for key, name in (("unpaired", "online-pairing"), ("not disconnected", "kick-disconnects"), ("API secret", "unauthorized-request-served"), ("conservation broken", "conservation"), ("final snapshot", "conservation"), ("proxied", "kick-exactly-once"), ("could not proxy", "kick-exactly-once"), ("LogTraffic(", "kick-exactly-once"), ("kicked", "kick-exactly-once"),
+    for key, name in (("unpaired", "online-pairing"), ("not disconnected", "kick-disconnects"), ("API secret", "unauthorized-request-served"), ("conservation broken", "conservation"), ("final snapshot", "conservation"), ("proxied", "kick-exactly-once"), ("could not proxy", "kick-exactly-once"), ("not errDisconnect", "kick-disconnects"), ("the copy went on", "kick-exactly-once"), ("errDisconnect although", "kick-exactly-once"), ("LogTraffic(", "kick-exactly-once"), ("kicked", "kick-exactly-once"),
                       ("refused", "kick-exactly-once"), ("online", "online-count"), ("panic", "panic"), ("malformed", "malformed-response")):
         if key in why:
             return "C15-%s-%s" % (c["k"], name)
@@ -861,6 +1044,84 @@ def search(ctx, disagreeing):
     return found[:5]
 
 
+# ---------------------------------------------------------------- the relay loop on scripted Reads
+
+COPY_N = [0, 0, 1, 5, 100, 4096, 32768]     # 32768 = the loop's buffer: a Read never returns more
+COPY_ERR = ["nil", "nil", "nil", "eof", "eof", "fail"]
+
+
+def copy_step(rng, n=None, err=None, ok=None, wok=None):
+    return {"n": rng.choice(COPY_N) if n is None else n, "err": rng.choice(COPY_ERR) if err is None else err,
+            "ok": (rng.random() < 0.8) if ok is None else ok, "wok": (rng.random() < 0.9) if wok is None else wok}
+
+
+def gen_copy(rng, tier):
+    """scripts of Read results for copyBufferLog (alone and as either direction of copyTwoWayEx).  Directed: a refused
+    report at position 0..3 of the stream, the Read having returned the bytes with nil / io.EOF / a failure, with and
+    without iterations that read nothing in between and with anything after it; streams that end accepted (data+EOF,
+    EOF alone), write failures, read failures, scripts that leave the loop blocked.  Random: 1-6 iterations."""
+    cases = []
+    for two in ("", "up", "down"):
+        for pos in range(4):
+            for err in ("nil", "eof", "fail"):
+                pre = []
+                for _ in range(pos):
+                    if rng.random() < 0.25:
+                        pre.append(copy_step(rng, n=0, err="nil"))
+                    pre.append(copy_step(rng, n=rng.choice(COPY_N[2:]), err="nil", ok=True, wok=True))
+                refused = copy_step(rng, n=rng.choice(COPY_N[2:]), err=err, ok=False)
+                post = [copy_step(rng) for _ in range(rng.choice([0, 0, 1, 2]))]
+                cases.append({"k": "copy", "two": two, "steps": pre + [refused] + post})
+        P = lambda n, e="nil": copy_step(rng, n=n, err=e, ok=True, wok=True)
+        cases += [{"k": "copy", "two": two, "steps": st} for st in (
+            [P(100), P(5, "eof")], [P(100), P(0, "eof")], [P(0, "eof")], [P(7, "fail")], [P(7), P(0, "fail")],
+            [P(7), copy_step(rng, n=9, err="eof", ok=True, wok=False)], [copy_step(rng, n=9, err="nil", ok=True, wok=False), P(3)],
+            [P(32768), P(32768), P(1, "eof")], [P(3), P(0), P(4)], [])]
+    for _ in range(150 if tier == "quick" else 1500):
+        cases.append({"k": "copy", "two": rng.choice(["", "", "up", "down"]),
+                      "steps": [copy_step(rng) for _ in range(rng.randint(1, 6))]})
+    return cases
+
+
+COPY_RES = {"nil": "CNil", "disconnect": "CDisconnect", "werr": "CWriteErr", "rerr": "CReadErr", "blocked": "CBlocked"}
+COPY_ERRC = {"nil": "RNil", "eof": "REOF", "fail": "RFail"}
+
+
+def copy_to_coq(c, o):
+    B = lambda b: "true" if b else "false"
+    if o.get("res") not in COPY_RES:
+        return "CCopy [] CNil [] false"      # an error the model does not have: never equal to the model's run
+    steps = ";".join("mkRs %d %s %s %s" % (st["n"], COPY_ERRC[st["err"]], B(st["ok"]), B(st["wok"])) for st in c["steps"])
+    acts = ";".join("%s %d %s" % ("AWrite" if a[0] else "ALog", a[1], B(a[2])) for a in o.get("acts") or [])
+    return "CCopy [%s] %s [%s] %s" % (steps, COPY_RES[o["res"]], acts, B(o.get("closed")))
+
+
+def copy_go(ctx):
+    rng = random.Random(ctx.seed * 131 + 9)
+    cases = gen_copy(rng, ctx.tier)
+    ok, outs, _, log = common.run_go_cases(ctx, GO_COPY, cases, tag="copy")
+    return ok, cases, outs, log
+
+
+def copy_stage(ctx, go_result):
+    """returns None when the stage passed, else (what, replay, found_input)"""
+    ok, cases, outs, log = go_result
+    if not ok:
+        return ("tie broken: the copy-loop harness did not build/run against the current tree (%s)" % log.strip()[-400:],
+                {"broken": "go harness (core/server)", "log": log[-4000:]}, False)
+    for c, o in zip(cases, outs):
+        if o.get("ok") is False:
+            return ("copy: %s" % o.get("why"), {"case": c, "impl": o, "how": "copyBufferLog" if not c["two"] else "copyTwoWayEx, direction " + c["two"]}, True)
+    terms = [copy_to_coq(c, o) for c, o in zip(cases, outs)]
+    eok, mm, err = common.eval_cases(ctx, "copycases", HEADER, terms, 400)
+    if not eok:
+        return ("correspondence evaluation of the copy-loop cases failed: " + err[:300], {"broken": "coq evaluation", "err": err[-3000:]}, False)
+    if mm:
+        return ("copyBufferLog and model/C15_Copy.v copy_loop disagree on %d scripted stream(s)" % len(mm),
+                {"disagreeing_cases": [{"case": cases[i], "impl": outs[i]} for i in mm[:10]]}, False)
+    return None
+
+
 def race_stage(ctx):
     """The concurrent cases again under the Go race detector: conservation under concurrency is a property of the
     lock discipline, and an access to the three maps outside the right lock is exactly what the detector reports
@@ -879,7 +1140,31 @@ def race_stage(ctx):
 
 
 def run(ctx):
+    import threading
+    copy_res = {}
+    th = threading.Thread(target=lambda: copy_res.update(r=copy_go(ctx)))
+    th.start()                       # the core/server harness builds and runs next to the main one
     rc = common.run_case_check(ctx, sys.modules[__name__])
+    t0 = __import__("time").time()
+    th.join()
+    outs_main = common.read_jsonl(ctx.path("out_main.jsonl")) if _os.path.exists(ctx.path("out_main.jsonl")) else []
+    unmod = sorted({fn for o in outs_main if o.get("k") == "e2e" for fn in unmodelled_sites(o)})
+    if unmod:
+        print("  note: REPORT SITE NOT IN THE MODEL: LogTraffic was called from core/server.%s - coq/model/C15_Sites.v (site_of_caller) "
+              "knows the relay (copyTwoWayEx) and udpIOImpl.ReceiveMessage / SendMessage only; what a refusal does there is not modelled"
+              % ", core/server.".join(unmod), flush=True)
+    bad = copy_stage(ctx, copy_res.get("r") or (False, [], [], "copy harness did not run"))
+    if bad is None:
+        ncopy = len((copy_res.get("r") or (0, []))[1])
+        note_evidence(ctx, None, 0, key="copy_stage", text2="copyBufferLog / copyTwoWayEx on %d scripted streams (refusal at every position, data+EOF): as the model, no violation" % ncopy)
+        print("C15 %s: copy-loop stage: %d scripted streams, as the model, no violation (%.1fs)" % (ctx.tier, ncopy, __import__("time").time() - t0), flush=True)
+    else:
+        what, rep, found = bad
+        rp = common.write_replay(ctx, {"property": ctx.pid, "what": what, "seed": ctx.seed, "tier": ctx.tier, "replay": rep})
+        print("VIOLATION property=%s replay=%s%s" % (ctx.pid, rp, "" if found else " no-failing-input-found"), flush=True)
+        print("  what: %s" % what, flush=True)
+        note_evidence(ctx, None, 1, key="copy_stage", text2=what)
+        return 1
     t0 = __import__("time").time()
     ok, cases, outs, bad, log = race_stage(ctx)
     dt = __import__("time").time() - t0
@@ -899,12 +1184,12 @@ def run(ctx):
     return 1
 
 
-def note_evidence(ctx, text, nviol):
+def note_evidence(ctx, text, nviol, key="race_stage", text2=None):
     evp = getattr(ctx, "evidence_path", None) or _os.path.join(common.VERIF, "evidence", ctx.pid + ".json")
     try:
         ev = json.load(open(evp))
         ev["violations"] = ev.get("violations", 0) + nviol
-        ev["coverage"]["race_stage"] = text
+        ev["coverage"][key] = text if text2 is None else text2
         ev["wall_s"] = round(__import__("time").time() - ctx.t0, 1)
         json.dump(ev, open(evp, "w"), indent=1)
     except Exception:
@@ -947,7 +1232,9 @@ LEVEL_TEXT = ("Machine-checked Coq theorems over a Gallina model of trafficStats
               "the live connection count and never a non-positive entry; and over a world model of core/server's connections and its four traffic-report "
               "sites: a refused report at any site closes exactly that QUIC connection, the listing follows the connections for every event sequence, "
               "a pending kick disconnects the user at its next report wherever it is made, the online/offline notifications are paired per connection and per user "
-              "(also when a connection dies while its auth is pending at a slow authenticator). The model is tied to /repo on every run by a call-by-call differential "
+              "(also when a connection dies while its auth is pending at a slow authenticator); and over a model of the relay loop copyBufferLog as a loop over Read results: "
+              "a refused report ends the copy with errDisconnect - and handleTCPRequest closes the connection - at every position of the stream, the chunk that arrives "
+              "together with io.EOF included, nothing being written after it (the variant that tests the Read error first is refuted). The model is tied to /repo on every run by a call-by-call differential "
               "run of the real handler and by recorded concurrent histories checked for linearizability in the Coq kernel (lib/Lin.v, soundness proved).")
 LEVEL_NOTE = ("Trusted: Coq kernel + vm_compute; hand-written model; sync.RWMutex; encoding/json, net/http. No axioms. Linearizability of the Go object "
               "is sampled, not proved. The pairing of online/offline notifications by core/server and the disconnect on a refused report are modelled (C15_Sites.v) and observed end to end; quic-go's close semantics are trusted.")
